@@ -159,7 +159,7 @@ func c01Exec(c *fw.Ctx, cas c01Case) (nontrivial bool) {
 				if to == "" {
 					to = "nobody@o.test"
 				}
-				body = "From: " + sender + "\r\nTo: " + to + "\r\nSubject: " + subject + "\r\n\r\nbody with headers " + fmt.Sprint(ti) + "\r\n"
+				body = "From: " + d.From + "\r\nTo: " + to + "\r\nSubject: " + subject + "\r\n\r\nbody with headers " + fmt.Sprint(ti) + "\r\n"
 			}
 			envFrom, envRcpts := d.From, append([]string{}, d.Rcpts...)
 			var hitsBefore int64
